@@ -460,6 +460,9 @@ func (d *drv) endBlock(s core.Step) (any, any, error) {
 	det := "same"
 	if term := s.Str("term"); term != "" {
 		det = d.bindDigest(term+"/exec", execDigest(o))
+		if x := d.bindDigest(term+"/rcpt", "receipts="+o.DRcpt1); x != "same" && det == "same" {
+			det = "differs:receipts(EventExecTxList)"
+		}
 		if det == "same" && o.DLDel != "" {
 			det = d.bindDigest(term+"/del", o.DLDel)
 			if det != "same" {
@@ -546,7 +549,11 @@ func (d *drv) run(s core.Step) (any, any, error) {
 		if _, err := d.child.call(&Cmd{Cmd: "gmp", Gmp: gmp}, callTimeout); err != nil {
 			return nil, nil, err
 		}
-		r, err := d.child.call(&Cmd{Cmd: "block", Items: d.items, Mode: "exec", Reps: reps}, callTimeout)
+		mode := "exec"
+		if s.Str("proc") == "conc" {
+			mode = "execconc" // reps concurrent EventExecTxList requests, then one full execution
+		}
+		r, err := d.child.call(&Cmd{Cmd: "block", Items: d.items, Mode: mode, Reps: reps}, callTimeout)
 		if err != nil {
 			return nil, nil, err
 		}
@@ -558,6 +565,14 @@ func (d *drv) run(s core.Step) (any, any, error) {
 		if o.Err != "" && !o.Rejected {
 			return nil, nil, fmt.Errorf("rig: %s", o.Err)
 		}
+		// the receipts of EventExecTxList alone (all executions, including the concurrent ones) ...
+		if x := d.bindDigest(term+"/rcpt", "receipts="+o.DRcpt1); x != "same" {
+			det = "differs:receipts(EventExecTxList)"
+		}
+		if o.DRcpt == "" && !o.Rejected {
+			continue // a concurrent execution: receipts only
+		}
+		// ... and the complete digest
 		if x := d.bindDigest(term+"/exec", execDigest(o)); x != "same" {
 			det = x
 		}
@@ -567,6 +582,6 @@ func (d *drv) run(s core.Step) (any, any, error) {
 			det = "differs:local-del-set"
 		}
 	}
-	obs := d.observe(s, outs[0], det)
+	obs := d.observe(s, outs[len(outs)-1], det)
 	return d.matchOrAlt(s, obs), nil, nil
 }
